@@ -468,3 +468,70 @@ def r4(ctx):
                             fn, tls[0].span['line'] if tls else 0), tls[0].span if tls else None)
     if n == 0:
         raise AnchorMissing('word matching bodies')
+
+
+def _copies_of_result_field(b, res_local, field):
+    """locals that are plain copies (transitively) of `result.field` of the match_words call; the copying statements themselves"""
+    L, binders = set(), set()
+    changed = True
+    while changed:
+        changed = False
+        for s in b.stmts():
+            if s.kind != 'assign' or s.lhs is None or not s.lhs.is_local() or s.rv.kind != 'use' or s.rv.ops[0].place is None:
+                continue
+            p = s.rv.ops[0].place
+            f = p.fields()
+            src_is = (p.local == res_local and len(f) == 1 and f[0][0] == 'f' and f[0][1] == field) or (p.local in L and not f)
+            if src_is and len(local_defs(b, s.lhs.local)) == 1:
+                binders.add((s.bb, s.idx))
+                if s.lhs.local not in L:
+                    L.add(s.lhs.local)
+                    changed = True
+    return L, binders
+
+
+@rule('C18', 'R-C18-5', 'T9 MUST-PASS (the lengths are read on every path)',
+      'edited_words reads the word count of a and of b (results 1 and 2 of match_words) on every path from the matching to its return: the '
+      'complement of the matched indices within 0..len changes with len for one and the same matching (an unmatched last word), so a path '
+      'that never consults len (e.g. the empty matching handled by `if let Some(last) = matching.last()` alone) returns a wrong set')
+def r5(ctx):
+    b = ctx.body('edit::edited_words')
+    mw = [t for t in b.calls(r'text::match_words$')]
+    if len(mw) != 1 or mw[0].dest is None or not mw[0].dest.is_local():
+        raise AnchorMissing('the single match_words call of edited_words')
+    res = mw[0].dest.local
+    for field, side in ((1, 'a'), (2, 'b')):
+        L, binders = _copies_of_result_field(b, res, field)
+
+        def touches(pl):
+            if pl is None:
+                return False
+            f = pl.fields()
+            if pl.local in L:
+                return True
+            if pl.local == res:
+                # the whole tuple moved / borrowed, or exactly this field
+                return not f or (f[0][0] == 'f' and f[0][1] == field)
+            return any(x[0] == 'idx' and x[1] in L for x in f)
+        use_blocks = set()
+        for blk in b.blocks:
+            if blk.idx not in b.reachable or blk.cleanup:
+                continue
+            for s in blk.stmts:
+                if s.kind != 'assign' or (s.bb, s.idx) in binders:
+                    continue
+                if (s.rv.place is not None and touches(s.rv.place)) or any(touches(o.place) for o in s.rv.ops):
+                    use_blocks.add(blk.idx)
+            t = blk.term
+            if t.kind == 'call' and t is not mw[0] and any(touches(o.place) for o in t.args):
+                use_blocks.add(blk.idx)
+            if t.kind == 'switch' and t.discr is not None and touches(t.discr.place):
+                use_blocks.add(blk.idx)
+        if not b.returns:
+            raise AnchorMissing('a return of edited_words')
+        bad = [r for r in b.returns if not cfg.must_pass(b, mw[0].bb, r, via_blocks=use_blocks, from_succ=True) and r not in use_blocks]
+        ctx.require(not bad, b, 'length-read|' + side,
+                    'every path from match_words to the return reads %s_len (result %d): read in %d block(s)' % (side, field, len(use_blocks)),
+                    'edited_words can return without ever reading %s_len (result %d of match_words): on that path the %s side cannot be '
+                    '(0..%s_len) minus the matched indices (uses of the length are confined to blocks %s)' % (
+                        side, field, side, side, sorted(use_blocks)))
